@@ -28,6 +28,8 @@ type Obligation struct {
 	Pos       token.Position
 	Text      string // human readable description (spec text or instruction)
 
+	TimeoutS int // per-obligation solver limit (0 = default)
+
 	// filled by the solver stage
 	Result  string // unsat | sat | unknown | timeout | error
 	Backend string
